@@ -34,6 +34,7 @@ import (
 	"crypto/x509/pkix"
 	"encoding/hex"
 	"encoding/json"
+	"encoding/pem"
 	"errors"
 	"flag"
 	"fmt"
@@ -65,6 +66,50 @@ type Case struct {
 	// signed certificate carries all of Names, so the CA's answer must be the engine's on all of them.
 	EnfDNS int    `json:",omitempty"`
 	EnfVia string `json:",omitempty"`
+	// Bundle != "": the roots are configured with authority.WithX509RootBundle instead of
+	// WithX509RootCerts. "crl": retired root, its CRL, the current root; "tail": current root, CRL,
+	// retired root; "hdr": the retired root in a CERTIFICATE block with PEM headers (skipped by the
+	// bundle reader), then the current root.
+	Bundle string `json:",omitempty"`
+}
+
+var (
+	retired *x509.Certificate // a root of an earlier generation: issues nothing in these chains
+	crlPEM  []byte
+)
+
+func pemBlock(typ string, der []byte, hdr map[string]string) []byte {
+	return pem.EncodeToMemory(&pem.Block{Type: typ, Bytes: der, Headers: hdr})
+}
+
+// rootOption configures the authority's roots as the case says; blocks/roots describe the same
+// for the model line (bundle= and roots= fields).
+func (k *Case) rootOption(b *built) authority.Option {
+	cur, old := pemBlock("CERTIFICATE", b.root.Raw, nil), pemBlock("CERTIFICATE", retired.Raw, nil)
+	switch k.Bundle {
+	case "crl":
+		return authority.WithX509RootBundle(append(append(old, crlPEM...), cur...))
+	case "tail":
+		return authority.WithX509RootBundle(append(append(cur, crlPEM...), old...))
+	case "hdr":
+		return authority.WithX509RootBundle(append(pemBlock("CERTIFICATE", retired.Raw, map[string]string{"Comment": "retired"}), cur...))
+	}
+	return authority.WithX509RootCerts(b.root)
+}
+
+func (k *Case) rootFields(b *built) string {
+	signs := b.ints[len(b.ints)-1].CheckSignatureFrom(b.root) == nil
+	cur := certField(b.root) + "~" + c.B(signs)
+	old := certField(retired) + "~" + c.B(b.ints[len(b.ints)-1].CheckSignatureFrom(retired) == nil)
+	switch k.Bundle {
+	case "crl":
+		return "roots=" + old + "|" + cur + " bundle=r0,x,r1"
+	case "tail":
+		return "roots=" + cur + "|" + old + " bundle=r0,x,r1"
+	case "hdr":
+		return "roots=" + cur + " bundle=x,r0"
+	}
+	return "roots=" + cur
 }
 
 // curEnf is what the authority-level enforcer of every embedded authority appends (per case).
@@ -183,7 +228,7 @@ func build(k *Case) (*built, bool) {
 		}
 	}
 	b := &built{ints: certs[:n-1], root: certs[n-1], issKy: keys[0]}
-	a, err := authority.NewEmbedded(authority.WithX509RootCerts(b.root), authority.WithX509SignerChain(b.ints, b.issKy),
+	a, err := authority.NewEmbedded(k.rootOption(b), authority.WithX509SignerChain(b.ints, b.issKy),
 		authority.WithX509Enforcers(addDNS{&curEnf}))
 	if err != nil {
 		fmt.Fprintln(os.Stderr, "NewEmbedded:", err)
@@ -210,8 +255,7 @@ func (k *Case) render(b *built) (string, bool) {
 	js, _ := json.Marshal(k)
 	// external input of the root selection in authority.init: does the root's key verify the last
 	// intermediate's signature (computed with the same crypto/x509 call)
-	signs := b.ints[len(b.ints)-1].CheckSignatureFrom(b.root) == nil
-	return fmt.Sprintf("st=chain ints=%s roots=%s~%s %s case=x%s", strings.Join(ints, "|"), certField(b.root), c.B(signs), names, hex.EncodeToString(js)), true
+	return fmt.Sprintf("st=chain ints=%s %s %s case=x%s", strings.Join(ints, "|"), k.rootFields(b), names, hex.EncodeToString(js)), true
 }
 
 func verify(leaf *x509.Certificate, chain []*x509.Certificate, root *x509.Certificate) string {
@@ -356,7 +400,7 @@ func (k *Case) run(b *built) (out string, ok bool) {
 	// them, and what it issues must verify like the directly signed leaf.
 	if len(k.TLS) > 0 {
 		a2, err := authority.NewEmbedded(authority.WithConfig(&config.Config{DNSNames: k.TLS}),
-			authority.WithX509RootCerts(b.root), authority.WithX509SignerChain(b.ints, b.issKy))
+			k.rootOption(b), authority.WithX509SignerChain(b.ints, b.issKy))
 		if err == nil {
 			tc, err := a2.GetTLSCertificate()
 			if err != nil {
@@ -472,6 +516,11 @@ func corner() []*Case {
 		{Levels: []gen.Level{{PURI: ex("example.com")}, {}}, Names: gen.Names{URIs: ex("https://.example.com/p")}},
 		{Levels: []gen.Level{{PDNS: ex("example.com")}, {}}, Names: gen.Names{DNS: ex(".www.example.com")}},
 		{Levels: []gen.Level{{PEm: ex("example.com")}, {}}, Names: gen.Names{Emails: ex("a@.example.com")}},
+		// roots from a PEM bundle: retired root and a CRL in front of / behind the current root
+		{Levels: []gen.Level{{}, {XDNS: ex("bad.example.com")}}, Bundle: "crl", Names: gen.Names{DNS: ex("x.bad.example.com")}},
+		{Levels: []gen.Level{{}, {XDNS: ex("bad.example.com")}}, Bundle: "tail", Names: gen.Names{DNS: ex("x.bad.example.com")}},
+		{Levels: []gen.Level{{}, {PDNS: ex("example.org")}}, Bundle: "hdr", Names: gen.Names{DNS: ex("web.example.com")}},
+		{Levels: []gen.Level{{}, {PDNS: ex("example.org")}}, Bundle: "crl", Names: gen.Names{DNS: ex("web.example.org")}},
 		// a certificate enforcer adds a name after the request was validated by the provisioner
 		{Levels: []gen.Level{{PDNS: ex("example.org")}, {}}, Names: gen.Names{DNS: ex("web.example.org", "web.svc.cluster.local")}, EnfDNS: 1, EnfVia: "authority"},
 		{Levels: []gen.Level{{PDNS: ex("example.org")}, {}}, Names: gen.Names{DNS: ex("web.example.org", "web.svc.cluster.local")}, EnfDNS: 1, EnfVia: "option"},
@@ -508,6 +557,22 @@ func main() {
 		keys = append(keys, k)
 	}
 	leafKey, _ = ecdsa.GenerateKey(elliptic.P256(), rand.Reader)
+	// the retired root of the bundle cases, with a CRL it once issued
+	rkey, _ := ecdsa.GenerateKey(elliptic.P256(), rand.Reader)
+	rt := &x509.Certificate{SerialNumber: big.NewInt(99), Subject: pkix.Name{CommonName: "C05 retired root"},
+		NotBefore: t0, NotAfter: t1, IsCA: true, BasicConstraintsValid: true,
+		KeyUsage: x509.KeyUsageCertSign | x509.KeyUsageCRLSign, SubjectKeyId: []byte{0xC0, 0x05, 0x99, 0x01},
+		ExcludedDNSDomains: []string{"retired.example"}, PermittedDNSDomainsCritical: true}
+	rder, err := x509.CreateCertificate(rand.Reader, rt, rt, rkey.Public(), rkey)
+	if err != nil {
+		panic(err)
+	}
+	retired, _ = x509.ParseCertificate(rder)
+	crlDER, err := x509.CreateRevocationList(rand.Reader, &x509.RevocationList{Number: big.NewInt(1), ThisUpdate: t0, NextUpdate: t1}, retired, rkey)
+	if err != nil {
+		panic(err)
+	}
+	crlPEM = pemBlock("X509 CRL", crlDER, nil)
 
 	emit := func(k *Case, b *built) {
 		line, ok := k.render(b)
@@ -574,13 +639,16 @@ func main() {
 		case 1:
 			k.KeyID = "wrongaki"
 		}
+		if rr.Chance(1, 3) {
+			k.Bundle = c.Pick(rr, []string{"crl", "tail", "hdr"})
+		}
 		b, ok := build(k)
 		if !ok {
 			stats["skip:chain-not-creatable"]++
 			continue
 		}
 		for j := 0; j < *per; j++ {
-			kk := &Case{Levels: k.Levels, KeyID: k.KeyID, Names: gen.GenNames(rr.Fork(), true, k.Levels)}
+			kk := &Case{Levels: k.Levels, KeyID: k.KeyID, Bundle: k.Bundle, Names: gen.GenNames(rr.Fork(), true, k.Levels)}
 			if re := rr.Fork(); re.Chance(1, 4) {
 				// names a certificate enforcer adds on top of the requested ones
 				extra := gen.GenNames(re, true, k.Levels).DNS
